@@ -115,7 +115,10 @@ def build_case(p, comp, subs_terms):
             return None, ("unreadable", f, str(ex))
         term = annotate_build_order(a["term"], subs_terms)
         default_false_bnew(term)
-        obs.append({"fmt": f, "term": term})
+        amb = ["bundle", "pkt", "hi"]
+        if "needs_hi" in r:
+            amb = ["bundle"] + (["hi"] if r["needs_hi"][0] else []) + (["pkt"] if r["needs_pkt"][0] else [])
+        obs.append({"fmt": f, "term": term, "events": a["events"], "ambient": amb})
         events[f] = a["events"]
     regs, imms = cast.resources(p["body"])
     case = {
@@ -129,17 +132,36 @@ def build_case(p, comp, subs_terms):
     return case, ("accepted", events)
 
 
-def run_tv(cases, il_subs, c_subs, devsets, ninputs, seed, workers=None, timeout=3600):
-    """Runs spec/TV.tla over the cases.  Returns (TLCResult, reports)"""
+KNOWN_IDS = ["true", "false", "IL_TRUE", "IL_FALSE", "HEX_RF_WIDTH", "HEX_RF_OFFSET", "RZ_FLOAT_IEEE754_BIN_32", "RZ_FLOAT_IEEE754_BIN_64"]
+IL_CALLEES = sorted(emitted.PURE_SIMPLE | emitted.EFFECT_SIMPLE | {
+    "SN", "UN", "U32", "CAST", "UNSIGNED", "SIGNED", "INC", "DEC", "VARL", "VARLP", "SETL", "LET", "LOADW", "SEQN",
+    "READ_REG", "WRITE_REG", "ISA2REG", "ISA2IMM", "EXPLICIT2OP", "ALIAS2OP", "NREG2OP", "DUP",
+    "HEX_STORE_SLOT_CANCELLED", "HEX_REGFIELD", "HEX_GET_CORRESPONDING_CS", "HEX_GET_NPC", "HEX_GET_INSN_RMODE",
+    "HEX_SETROUND", "BV2F", "HEX_INT_TO_D", "HEX_INT_TO_F", "HEX_SINT_TO_D", "HEX_SINT_TO_F", "HEX_D_TO_INT",
+    "HEX_F_TO_INT", "HEX_D_TO_SINT", "HEX_F_TO_SINT", "FADD", "FSUB", "FMUL", "FDIV"})
+
+
+def dump_tv(path, cases, il_subs, c_subs, devsets, extra_known=(), extra_allowed=()):
+    known = list(KNOWN_IDS) + list(extra_known)
+    allowed = list(IL_CALLEES) + ["hex_" + n for n in (il_subs or {})] + list(extra_allowed)
+    json.dump({"cases": cases, "subs": il_subs or {"_": {"params": [], "body": {"op": "NOP", "args": []}}},
+               "csubs": c_subs or {"_": {"params": [], "ret": cast.T(False, 32), "void": True, "body": []}},
+               "devsets": devsets, "known": known, "allowed": allowed}, open(path, "w"))
+
+
+def run_tv(cases, il_subs, c_subs, devsets, ninputs, seed, workers=None, timeout=3600, static=True):
+    """Runs spec/TV.tla (and spec/Static.tla) over the cases.  Returns (tv result, static result)"""
+    import shutil
     d = tempfile.mkdtemp(prefix="verif_tv_")
     try:
         f = os.path.join(d, "tv.json")
-        json.dump({"cases": cases, "subs": il_subs or {"_": {"params": [], "body": {"op": "NOP", "args": []}}},
-                   "csubs": c_subs or {"_": {"params": [], "ret": cast.T(False, 32), "void": True, "body": []}},
-                   "devsets": devsets}, open(f, "w"))
+        dump_tv(f, cases, il_subs, c_subs, devsets)
         r = tlc.run("TV.tla", "TV.cfg", env={"TV_FILE": f, "TV_SEED": seed, "TV_NINPUTS": ninputs},
-                    workers=workers, timeout=timeout, tags=("TVREPORT",), extra=("-continue",))
-        return r
+                    workers=workers, timeout=timeout, tags=("TVREPORT",))
+        s = None
+        if static:
+            s = tlc.run("Static.tla", "Static.cfg", env={"TV_FILE": f}, workers=workers, timeout=timeout,
+                        tags=("STREPORT",))
+        return r, s
     finally:
-        import shutil
         shutil.rmtree(d, ignore_errors=True)
